@@ -1,0 +1,69 @@
+//go:build verif
+
+package abci
+
+import (
+	"bytes"
+
+	"github.com/cometbft/cometbft/abci/types"
+	cmtproto "github.com/cometbft/cometbft/proto/tendermint/types"
+)
+
+// This file is an add-only verification hook (build tag "verif"). It exposes
+// read-only views of package-private multiplexer state; it changes no behaviour.
+
+// VerifAppOrder returns the names of the registered applications in the order
+// in which the multiplexer dispatches InitChain/BeginBlock/EndBlock to them.
+func (a *ApplicationServer) VerifAppOrder() []string {
+	names := make([]string, 0, len(a.mux.appsByLexOrder))
+	for _, app := range a.mux.appsByLexOrder {
+		names = append(names, app.Name())
+	}
+	return names
+}
+
+// VerifProposalSnapshot is a copy of the proposal cache (proposalState).
+type VerifProposalSnapshot struct {
+	Present     bool
+	Header      *cmtproto.Header
+	Txs         [][]byte
+	Misbehavior []types.Misbehavior
+	Hash        []byte
+	// Executed is !needsExecution().
+	Executed bool
+}
+
+// VerifProposal returns a snapshot of the current proposal cache.
+func (a *ApplicationServer) VerifProposal() VerifProposalSnapshot {
+	p := a.mux.state.proposal
+	if p == nil {
+		return VerifProposalSnapshot{}
+	}
+	s := VerifProposalSnapshot{
+		Present:     true,
+		Txs:         p.txs,
+		Misbehavior: p.misbehavior,
+		Hash:        p.hash,
+		Executed:    !p.needsExecution(),
+	}
+	if p.header != nil {
+		h := *p.header
+		s.Header = &h
+	}
+	return s
+}
+
+// VerifProcessProposalWouldReuse evaluates, without side effects, the condition under
+// which ProcessProposal accepts a proposal without executing it (mux.go, ProcessProposal).
+func (a *ApplicationServer) VerifProcessProposalWouldReuse(header *cmtproto.Header, txs [][]byte, misbehavior []types.Misbehavior) bool {
+	p := a.mux.state.proposal
+	return p != nil && !p.needsExecution() && p.isEqual(header, txs, misbehavior)
+}
+
+// VerifBeginBlockWouldReuse evaluates, without side effects, the condition under which
+// BeginBlock returns the cached results (mux.go BeginBlock + state.go resetProposalIfChanged).
+func (a *ApplicationServer) VerifBeginBlockWouldReuse(hash []byte) bool {
+	p := a.mux.state.proposal
+	changed := !(p != nil && bytes.Equal(p.hash, hash))
+	return !changed && !p.needsExecution()
+}
